@@ -160,9 +160,49 @@ def runResourceRd (s : ResR) (evs : List String) (acc : List String) : List Stri
     | none => acc ++ ["bad-op"]
     | some ev => let s' := rrStep s ev; runResourceRd s' es (acc ++ [showResR s'])
 
+/-- `resourcerdfb`: readers observed, and a subscriber of the value that writes the dependency (to `c`, once it
+differs) from inside a delivery: the write is a step of its own right after the delivery -/
+def runResourceRdFb (c : Nat) (s : ResR) (evs : List String) (acc : List String) : List String :=
+  match evs with
+  | [] => acc
+  | e :: es =>
+    match rrEv e with
+    | none => acc ++ ["bad-op"]
+    | some ev =>
+      let s' := rrStep s ev
+      let delivered := match ev with
+        | .ev (.finish k) => s.alive && k = s.res.started && !s.res.completedLatest
+        | _ => false
+      let s'' := if delivered && s'.res.dep != c then rrStep s' (.ev (.write c)) else s'
+      runResourceRdFb c s'' es (acc ++ [showResR s''])
+
+/-- `resourcerdfx`: readers observed, and a subscriber of the value that disposes the owner of the resource from
+inside a delivery -/
+def runResourceRdFx (s : ResR) (evs : List String) (acc : List String) : List String :=
+  match evs with
+  | [] => acc
+  | e :: es =>
+    match rrEv e with
+    | none => acc ++ ["bad-op"]
+    | some ev =>
+      let s' := rrStep s ev
+      let delivered := match ev with
+        | .ev (.finish k) => s.alive && k = s.res.started && !s.res.completedLatest
+        | _ => false
+      let s'' := if delivered then rrStep s' .disposeOwner else s'
+      runResourceRdFx s'' es (acc ++ [showResR s''])
+
 /-- `suspense <items> <ev,ev,…>` | `resource <dep0> <ev,ev,…>` | `resourcefb <dep0> <c> <ev,ev,…>` -/
 def handle (line : String) : String :=
   match line.splitOn " " with
+  | "resourcerdfx" :: d :: evs :: [] =>
+    match d.toNat? with
+    | some d => " | ".intercalate (runResourceRdFx (ResR.init d) (if evs == "-" then [] else evs.splitOn ",") [showResR (ResR.init d)])
+    | none => "bad-op"
+  | "resourcerdfb" :: d :: c :: evs :: [] =>
+    match d.toNat?, c.toNat? with
+    | some d, some c => " | ".intercalate (runResourceRdFb c (ResR.init d) (if evs == "-" then [] else evs.splitOn ",") [showResR (ResR.init d)])
+    | _, _ => "bad-op"
   | "resourcerd" :: d :: evs :: [] =>
     match d.toNat? with
     | some d => " | ".intercalate (runResourceRd (ResR.init d) (if evs == "-" then [] else evs.splitOn ",") [showResR (ResR.init d)])
